@@ -26,13 +26,10 @@ REQUIRED_BRIDGES = {
     # pixman-private.h: the scalar 565 references of the SIMD paths
     "C02": [_P + n for n in ["convert_8888_to_0565_eq", "convert_0565_to_0888_eq", "convert_0565_to_8888_eq"]],
     # pixman-inlines.h pad bounds; pixman-utils.c overflow predicates / pixman_malloc_ab* (Model/Alloc)
-    "C04": [_P + n for n in ["compute_transformed_extents_eq", "analyze_extent_eq", "repeat_eq", "pad_repeat_get_scanline_bounds_eq", "pixman_malloc_ab_eq", "pixman_malloc_abc_eq",
+    "C04": [_P + n for n in ["repeat_eq", "pad_repeat_get_scanline_bounds_eq", "pixman_malloc_ab_eq", "pixman_malloc_abc_eq",
                              "pixman_malloc_ab_plus_c_eq", "_pixman_multiply_overflows_int_eq",
                              "_pixman_multiply_overflows_size_eq", "_pixman_addition_overflows_int_eq"]],
     "C08": [_P + "pixman_fixed_to_bilinear_weight_eq", _P + "repeat_eq", _P + "bilinear_interpolation_eq"],
-    # pixman-image.c: compute_image_info = C14's literal model = C09's continuation form (flag constants matched
-    # against Gen/ImageFlags inside the proof)
-    "C09": [_P + "compute_image_info_eq", _P + "analyze_extent_eq"],
     "C10": [_P + "unorm_to_unorm_eq"],
     # pixman-matrix.c: the 128-bit helpers
     "C11": [_P + n for n in ["rounded_udiv_128_by_48_eq", "rounded_udiv_128_by_48_ok_eq", "rounded_udiv_128_by_48_bridge",
@@ -41,10 +38,8 @@ REQUIRED_BRIDGES = {
     # pixman-trap.c: sample grid rows per depth, edge stepping
     "C12": [_P + n for n in [f"pixman_sample_{d}_y_{n}_eq" for d in ("ceil", "floor") for n in (1, 4, 8)] +
             ["pixman_edge_step_eq", "_pixman_edge_multi_init_eq"]],
-    "C14": [_P + "compute_image_info_eq"],
     "C15": [_P + n for n in ["pixman_malloc_ab_eq", "pixman_malloc_abc_eq", "pixman_malloc_ab_plus_c_eq"]],
-    "C17": [_P + n for n in ["glyph_hash_eq", "glyph_thaw_outer_eq", "glyph_thaw_dump_eq", "glyph_thaw_evict_eq",
-                             "glyph_insert_frozen_eq", "glyph_insert_full_eq"]],
-    "C19": [_P + n for n in ["color_to_uint32_eq", "color_to_pixel_eq", "convert_8888_to_0565_eq_fill"]],
+    "C17": [_P + "glyph_hash_eq"],
+    "C19": [_P + n for n in ["color_to_uint32_eq", "convert_8888_to_0565_eq_fill"]],
 }
 ALL_BRIDGES = sorted({t for v in REQUIRED_BRIDGES.values() for t in v})
